@@ -58,7 +58,7 @@ def field(scanner: Scanner):
 
         if scanner.eat_while(is_number):
             # It’s a field
-            index = int(scanner.current())
+            index = scanner.current_int()
             name = consume_placeholder(scanner) if scanner.eat(Chars.Colon) else ''
         elif is_alpha(scanner.peek()):
             # It’s a variable
